@@ -221,6 +221,38 @@ func genSplit(g *genCtx) {
 		}
 	}
 	if g.part == "limit" {
+		// GB18030 texts in which every character takes two octets (hanzi, the euro sign): the even part size cannot cut one
+		for _, euros := range [][]int{{0}, {0, 1, 2}, {66}, {10, 70, 140}, {0, 67}, {}} {
+			for _, L := range []int{71, 150, 203} {
+				t := make([]int, L)
+				for i := range t {
+					t[i] = 0x4e00 + (i*37)%20000
+				}
+				for _, at := range euros {
+					if at < L {
+						t[at] = 0x20AC
+					}
+				}
+				emit(Case{"k": "split", "proto": "cmpp", "req": 15, "ref": 4, "text": t})
+			}
+		}
+		// texts that are not in Unicode normal form C: what is sent is the text as given (a GSM request falls back to UCS-2)
+		for _, proto := range []string{"smpp", "cmpp"} {
+			for _, req := range []int{0, 99, 8, 3, 15} {
+				if proto == "cmpp" && (req == 99 || req == 3) || proto == "smpp" && req == 15 {
+					continue
+				}
+				for _, unit := range [][]int{{'e', 0x0301}, {0x2126}, {0x212B}, {0x212A}, {0x037E}, {'A', 0x030A, 'x'}} {
+					for _, rep := range []int{1, 30, 100} {
+						var t []int
+						for i := 0; i < rep; i++ {
+							t = append(t, unit...)
+						}
+						emit(Case{"k": "split", "proto": proto, "req": req, "ref": 3, "text": t})
+					}
+				}
+			}
+		}
 		// UCS-2 characters whose LOW octet is 0x1B (U+041B, U+4E1B) around the cuts: 0x1B means nothing in UCS-2
 		for _, p := range plans {
 			if p.per != 134 || !(p.req == 8 || p.req == 9) {
